@@ -790,3 +790,9 @@ func init() {
 	mutant("headers-copy-loses-the-block", "settings-copy-complete", "headers.go", "	h2.rawHeaders = append(h2.rawHeaders[:0], h.rawHeaders...)\n", "")
 	mutant("headers-copy-loses-end-stream", "settings-copy-complete", "headers.go", "	h2.endStream = h.endStream\n", "")
 }
+
+func init() {
+	mutant("padded-data-replaces-the-flags", "flag-ops", "data.go", "		fr.SetFlags(\n			fr.Flags().Add(FlagPadded))\n		data.b = http2utils.AddPadding(data.b)", "		fr.SetFlags(FlagPadded)\n		data.b = http2utils.AddPadding(data.b)")
+	mutant("body-length-counts-the-padding", "message-consistency", "serverConn.go", "		strm.recvBody += len(data)", "		strm.recvBody += fr.Len()")
+	mutant("timed-out-stream-closed-before-its-reset", "late-frames-on-reset-streams", "serverConn.go", "				sc.resetStream(strm, StreamCanceled)\n\n				// set the state to closed in case it comes back to life later\n				strm.SetState(StreamStateClosed)\n				closeStream(strm)\n", "				// set the state to closed in case it comes back to life later\n				strm.SetState(StreamStateClosed)\n				closeStream(strm)\n\n				sc.resetStream(strm, StreamCanceled)\n")
+}
